@@ -305,7 +305,13 @@ pub fn gen_request(s: &mut Src, cfg: &GenCfg, notes: &mut Notes, out: &mut Vec<u
         }
     };
     let want_expect = s.chance(cfg.expect);
-    let nlines = s.below(6);
+    // mostly 0..5 further lines; now and then a head of several windows (60..260 lines)
+    let nlines = if cfg.big && s.chance(5) {
+        notes.add("head_of_many_lines");
+        s.range(60, 260)
+    } else {
+        s.below(6)
+    };
     let cl_pos = s.below(nlines + 1);
     let ex_pos = s.below(nlines + 1);
     for i in 0..=nlines {
